@@ -103,4 +103,8 @@ def any_text(tier='quick', weights=(3, 2, 2, 3, 2, 2, 1, 2, 1, 2)):
     quick = tier == 'quick'
     srcs = [chars.text(quick), soup.soup(), soup.structured_text(), grammar.rendered_script(3), damaged_script(),
             proc.rendered_script(), corpus_mutation(), batch_script(), soup.comment_led(), soup.dictionary_soup()]
-    return grammar.weighted(*[(w, s) for s, w in zip(srcs, weights)])
+    base = grammar.weighted(*[(w, s) for s, w in zip(srcs, weights)])
+    # one text in sixteen starts with a character that input layers like to treat specially (byte-order mark, zero-width
+    # space, NUL, no-break space, line/paragraph separators, control characters)
+    lead = st.sampled_from(['\ufeff', '\ufeff\ufeff', '\u200b', '\x00', '\xa0', '\u2028', '\u3000', '\x1f', '\ufffe', '\x1a'])
+    return st.tuples(st.integers(0, 15), lead, base).map(lambda t: t[1] + t[2] if t[0] == 0 else t[2])
